@@ -114,10 +114,15 @@ def gen_scenario(rng, i):
             # a settings file edited on Windows: CRLF line endings (the user's bytes must survive as a prefix)
             files[sp] = files[sp].replace('\n', '\r\n')
         r = rng.random()
+        # stratified over the run index, so that every batch - however small, whatever the seed - contains each of them
+        r = {0: 0.12, 3: 0.03, 5: 0.18}.get(i % 8, r)
         if r < 0.07:
             # the key is there but has no value yet
             files[sp] = files[sp].rstrip('\r\n') + rng.choice(['\nmerchants_file:\n', '\nmerchants_file: null\n', '\nmerchants_file: ""\n', '\nmerchants_file:   # todo\n'])
-        elif r < 0.17 and variant != 'init' and not base:
+        elif r < 0.13:
+            # settings.yaml names the legacy CSV itself (that works: a file that is not *.rules is read as CSV rules)
+            files[sp] = files[sp].rstrip('\r\n') + ('\r\n' if '\r\n' in files[sp] else '\n') + 'merchants_file: config/merchant_categories.csv\n'
+        elif r < 0.21 and variant != 'init' and not base:
             # the budget is run with another settings file (-s): that is the file the migration has to point at the new rules
             alt = 'settings-alt.yaml'
             files[cfg + '/' + alt] = files[sp]
@@ -207,7 +212,7 @@ def observe(root, ctlp, obs):
     r = proc.run_cli(root, obs['argv'], {'tty': {}, 'net': 'down'}, cwd=obs['cwd'], ctl_parent=ctlp)
     doc = parse_json_report(r.out) if r.exit == 0 else None
     if doc is None:
-        err = (r.err.strip().split('\n') or [''])[-1][:200]
+        err = (util.norm_text(r.err, root).strip().split('\n') or [''])[-1][:200]
         return {'status': 'fail', 'exit': r.exit, 'err': err}, r
     c = classification(doc)
     c['status'] = 'ok'
